@@ -127,3 +127,11 @@ let parse_wops (s : string) : wop list =
   if s = "" then [] else
   List.map (fun t -> if t = "f" then WFlush else WWrite (bytes_of_hex (String.sub t 1 (String.length t - 1))))
     (String.split_on_char ',' s)
+
+(* envspec: K=hexV;K2=hexV2  (absent = unset) *)
+let parse_env (s : string) : (n list * n list) list =
+  if s = "" || s = "-" then [] else
+  List.map (fun kv ->
+      match String.index_opt kv '=' with
+      | Some i -> (str_of_utf8 (String.sub kv 0 i), arg_str (String.sub kv (i + 1) (String.length kv - i - 1)))
+      | None -> failwith "envspec") (String.split_on_char ';' s)
